@@ -36,7 +36,7 @@ CW = 'chainables.courier_worker'
 
 
 def run(ctx: Ctx):
-  for r in (r1, r2, r3, r4, r5, r6, r7, r10):
+  for r in (r1, r2, r3, r4, r5, r6, r7, r10, r11):
     ctx.guard(r)
   from mlmverif.props import c03
   ctx.include('R-C16-9', '"delivers exactly one final aggregate result": the'
@@ -448,11 +448,86 @@ def r10(ctx: Ctx):
   ctx.floor(rule, 1, n)
 
 
+def r11(ctx: Ctx):
+  rule = 'R-C16-11'
+  ctx.rule(rule, 'a stage worker is counted as a producer of the stage\'s output queue'
+           ' BEFORE it can take input: on the event loop the only atomicity is "no'
+           ' await". (a) CourierClient.async_iter starts the remote producer'
+           ' (`.enqueue_from_iterator(...)` sent with return_immediately) and returns'
+           ' without any further await; (b) AsyncIteratorQueue.async_enqueue_from_iterator'
+           ' calls _start_enqueue() with no await between obtaining the iterator and'
+           ' that call. An await in that window lets the remote worker drain the shared'
+           ' input while the master has not registered it: the other workers finish,'
+           ' the output queue reports done, its consumer stops and the late worker\'s'
+           ' batches land in a queue nobody reads (missing output batches, aggregate'
+           ' still complete)')
+  repo = ctx.repo
+  n = 0
+  # (a)
+  fi = repo.func('utils.courier_utils', 'CourierClient.async_iter')
+  g = cfgm.cfg_of(fi.node)
+  starts = [nd for nd in g.nodes if nd.kind in ('stmt', 'cond') and any(
+      isinstance(x, ast.Call) and isinstance(x.func, ast.Attribute) and x.func.attr == 'enqueue_from_iterator'
+      for x in cfgm.node_exprs(nd))]
+  if not starts:
+    raise AnalysisError(f'{rule}: async_iter no longer starts the remote producer with enqueue_from_iterator')
+  def has_await(nd):
+    return any(isinstance(x, ast.Await) for x in cfgm.node_exprs(nd))
+  for st in starts:
+    n += 1
+    firsts = [s_ for s_, lab in st.succ if lab not in ('exc', 'close')]
+    after = list(g.reachable(firsts, edge_ok=cfgm.only_normal)) + firsts
+    aw = [nd for nd in after if has_await(nd)] + ([st] if has_await(st) else [])
+    if aw:
+      a = sorted(aw, key=lambda x_: x_.lineno)[0]
+      ctx.fail(rule, fi, 'async_iter: no await between starting the remote producer and returning the queue',
+               f'`{a.text()[:60]}` suspends async_iter after the remote producer was started: the'
+               ' worker already pulls from the shared input queue while the caller has not yet'
+               ' reached _start_enqueue(); if the other workers finish in that window the output'
+               ' queue reports enqueue_done, its reader stops and this worker\'s batches are lost',
+               node=a.ast)
+    else:
+      ctx.ok(rule, fi, 'remote producer start is fire-and-forget (no await before return)', st.ast)
+  # (b)
+  fj = repo.func('utils.iter_utils', 'AsyncIteratorQueue.async_enqueue_from_iterator')
+  g2 = cfgm.cfg_of(fj.node)
+  se = [nd for nd in g2.nodes if any(isinstance(x, ast.Call) and unparse(x.func) == 'self._start_enqueue'
+                                     for x in cfgm.node_exprs(nd))]
+  if len(se) != 1:
+    raise AnalysisError(f'{rule}: expected one _start_enqueue() call in async_enqueue_from_iterator')
+  p = fj.params()[1]
+  # awaits of anything but the iterator argument itself before registration
+  before = g2.reachable([g2.entry], avoid=lambda nd: nd is se[0], edge_ok=cfgm.only_normal)
+  bad = []
+  for nd in before:
+    for x in cfgm.node_exprs(nd):
+      if isinstance(x, ast.Await) and not (isinstance(x.value, ast.Name) and x.value.id == p):
+        bad.append(nd)
+  n += 1
+  if bad:
+    ctx.fail(rule, fj, 'async_enqueue_from_iterator: _start_enqueue() right after the iterator is obtained',
+             f'`{bad[0].text()[:60]}` awaits something other than the iterator before _start_enqueue():'
+             ' the producer is registered late and the queue can report done in between', node=bad[0].ast)
+  else:
+    ctx.ok(rule, fj, '_start_enqueue() follows `await iterator` with no other suspension', se[0].ast)
+  ctx.floor(rule, 2, n)
+
+
 from mlmverif.selfcheck import B, OK  # noqa: E402
 
 _T = 'chainables/transform.py'
 _O = 'chainables/orchestrate.py'
 VARIANTS = [
+    B('remote-start-awaited', 'utils/courier_utils.py',
+      '    _ = self.call(\n        lazy_output_q.enqueue_from_iterator(lazy_iterable),\n        return_exception=True,\n        return_immediately=True,\n    )',
+      '    state = self.call(\n        lazy_output_q.enqueue_from_iterator(lazy_iterable),\n        return_exception=True,\n        return_immediately=True,\n    )\n    await asyncio.wrap_future(state)',
+      'R-C16-11'),
+    B('producer-registered-after-a-sleep', 'utils/iter_utils.py',
+      '      iterator = aiter(iterator)\n    self._start_enqueue()',
+      '      iterator = aiter(iterator)\n    await asyncio.sleep(0)\n    self._start_enqueue()', 'R-C16-11'),
+    OK('remote-start-state-kept', 'utils/courier_utils.py',
+       '    _ = self.call(\n        lazy_output_q.enqueue_from_iterator(lazy_iterable),',
+       '    start_state = self.call(\n        lazy_output_q.enqueue_from_iterator(lazy_iterable),'),
     B('shard-pipeline-cached-at-worker', 'chainables/orchestrate.py',
       '          shard_index=i,\n          num_shards=num_shards,\n          **pipeline_kwargs,',
       '          shard_index=i,\n          num_shards=num_shards,\n          cache_result_=True,\n          **pipeline_kwargs,',
